@@ -38,7 +38,7 @@ pub proof fn lemma_suffix_boundary(s: Seq<char>, t: Seq<char>)
 //@ obligation lemma_prefix_boundary props=C15
 //@ obligation lemma_suffix_boundary props=C15
 
-//@ item trim_prefix file=src/sys/fs/path.rs fn=trim_prefix props=C15,C12,C09,C01
+//@ item trim_prefix file=src/sys/fs/path.rs fn=trim_prefix props=C15,C12,C09,C01,C03
 //@ sig pub fn trim_prefix<T: AsRef<Path>, U: AsRef<Path>>(path: T, prefix: U) -> PathBuf
 //@ rw R7 * re⟦PathBuf::from\(&base\[([^\]]+)\.\.\]\)⟧ => ⟦PathBuf::from_s(&base.slice_from(\1))⟧
 //@ rw R4 * ⟦.chars().count()⟧ => ⟦.chars_count()⟧
